@@ -37,10 +37,19 @@ def observed_heights(cb, r, blocks_by_hash, addr2h):
         return s.get('blocks')
 
 
+def genesis_rooted_chain(n, coin, order):
+    """block 0 is the coin's real genesis block (so that --verify can be on), the rest standard blocks"""
+    ghdr, gtxs = btc.genesis_block(coin)
+    g = {'hdr': ghdr, 'hash': btc.sha256d(ghdr), 'txs': gtxs, 'raw': btc.ser_block(ghdr, gtxs)}
+    rest = chains.std_chain(n - 1, coin, order=order, h0=1, prev=g['hash']) if n > 1 else []
+    return [g] + rest
+
+
 def replay_one(w, obs, coin='bitcoin', h0=0):
-    """obs: REPLAY record of MC_Range -> list of problems"""
+    """obs: REPLAY record of MC_Range -> list of problems; every callback's complete output is compared with the reference
+    rendering of exactly the expected heights"""
     T, s, e, cb = obs['T'], obs['start'], obs['end'], obs['cb']
-    blocks = chains.std_chain(T + 1, coin, order='desc' if obs['rev'] else 'asc')
+    blocks = genesis_rooted_chain(T + 1, coin, 'desc' if obs['rev'] else 'asc')
     d = datadir.DataDir(w.sub('dd'), coin)
     for h, b in enumerate(blocks):
         off = d.place(h // 2, b['raw'])
@@ -48,17 +57,13 @@ def replay_one(w, obs, coin='bitcoin', h0=0):
     d.core_extras()
     d.write()
     dump = w.mk('out') if cb in FILECB else None
-    r = run.run_parser(d.path, cb, dump=dump, coin=coin, start=s if s else None, end=None if e == -1 else e)
+    r = run.run_parser(d.path, cb, dump=dump, coin=coin, start=s if s else None, end=None if e == -1 else e, verify=obs.get('verify', False))
     exp_h = obs['heights']
+    chain = [(h, blocks[h]) for h in exp_h]
     probs = []
     if r.rc != obs['exit']:
-        probs.append('exit status %s, specification says %s' % (r.rc, obs['exit']))
+        probs.append('exit status %s, specification says %s: %s' % (r.rc, obs['exit'], r.stderr[-200:]))
         return probs, r
-    addr2h = {btc.b58check(b'\0' + chains.addr_h160(h)): h for h in range(T + 1)}
-    got = observed_heights(cb, r, None, addr2h)
-    want = exp_h if cb in ('csvdump', 'opreturn') else sorted(exp_h) if cb != 'simplestats' else len(exp_h)
-    if got != want:
-        probs.append('callback %s saw heights %s, specification says %s' % (cb, got, want))
     last = chains.processed_upto(r.stdout)
     if exp_h and last != exp_h[-1]:
         probs.append('"Processed blocks up to height" says %s, expected %s' % (last, exp_h[-1]))
@@ -66,17 +71,33 @@ def replay_one(w, obs, coin='bitcoin', h0=0):
         names = sorted('%s-%d-%d.csv' % (f['f'], f['s'], f['l']) for f in obs['finals'])
         if r.listing != names:
             probs.append('dump folder holds %s, specification says %s' % (r.listing, names))
-    if cb == 'csvdump' and not probs:
-        # slice property: the range output is the corresponding slice of the whole-chain rows
-        exp, _ = ref.csv_expected([(h, blocks[h]) for h in exp_h], coin)
+            return probs, r
+    if cb == 'csvdump':
+        # also the slice property: the range output is the corresponding slice of the whole-chain rows
+        exp, _ = ref.csv_expected(chain, coin)
         for f in FILECB['csvdump']:
             name = '%s-%d-%d.csv' % (f, s, exp_h[-1])
             if r.files.get(name) != exp[f]:
-                probs.append('%s differs from the slice %d..%d of the whole-chain rows' % (name, s, exp_h[-1]))
-    if cb == 'opreturn' and not probs:
-        exp = b''.join(x for x in ref.opreturn_expected([(h, blocks[h]) for h in exp_h], coin))
+                got = chains.csv_col(r.files.get(name, b''), 1) if f == 'blocks' else ''
+                probs.append('%s differs from the rows of heights %d..%d %s' % (name, s, exp_h[-1], got))
+    elif cb == 'unspentcsvdump':
+        rows = set(r.files['unspent-%d-%d.csv' % (s, exp_h[-1])].decode().splitlines()[1:])
+        if rows != ref.unspent_rows(ref.utxo_expected(chain, coin)):
+            probs.append('unspent rows are not those of heights %s (row heights %s)' % (exp_h, sorted({x.split(';')[2] for x in rows})))
+    elif cb == 'balances':
+        rows = set(r.files['balances-%d-%d.csv' % (s, exp_h[-1])].decode().splitlines()[1:])
+        if rows != ref.balances_rows(ref.utxo_expected(chain, coin)):
+            probs.append('balances rows are not those of heights %s' % exp_h)
+    elif cb == 'opreturn':
+        exp = b''.join(x for x in ref.opreturn_expected(chain, coin))
         if chains.strip_log(r.out) != exp:
-            probs.append('opreturn lines differ from the slice of the whole-chain lines')
+            probs.append('opreturn lines are not those of heights %s: %r' % (exp_h, chains.strip_log(r.out)[:300]))
+    else:
+        st = chains.parse_stats(r.stdout)
+        est = ref.stats_expected(chain, coin)
+        if (st.get('blocks'), st.get('txs'), st.get('volume')) != (est['blocks'], est['txs'], est['volume']):
+            probs.append('simplestats saw %s blocks / %s txs / volume %s, expected %s / %s / %s' % (
+                st.get('blocks'), st.get('txs'), st.get('volume'), est['blocks'], est['txs'], est['volume']))
     return probs, r
 
 
@@ -113,7 +134,7 @@ def main(ck, tier, w):
         ck.traces()
         if obs['start'] > 0 or obs['end'] != -1:
             ck.distinct((obs['T'], obs['start'], obs['end'], obs['cb']))
-        ck.sample({'scenario': {k: obs[k] for k in ('T', 'start', 'end', 'cb', 'rev')}, 'expected_heights': obs['heights']})
+        ck.sample({'scenario': {k: obs[k] for k in ('T', 'start', 'end', 'cb', 'rev', 'verify')}, 'expected_heights': obs['heights']})
         if probs:
             tags = []
             ck.violation('; '.join(probs), {'scenario': obs, 'observed': r.brief(), 'tags': tags,
